@@ -55,6 +55,13 @@ CHECKS = {
         design_ref="3/C19",
         note="Trusts TLC and os.utime-controlled logical time; same-tick / older-mtime edits are outside the contract (stale run allowed). Three code-store defects are known findings.",
     ),
+    "C08": dict(
+        category="model_checking",
+        technique="TLA+ spec PathLookup (POSIX search as truth, commands cache as implemented) checked by TLC; simulated and weighted create/delete/chmod/$PATH-edit/lookup histories replayed on a scratch tree with explicit mtimes; each lookup compared with shutil.which, /bin/sh `command -v` and a real spawn; validated against PathLookupTrace by TLC",
+        text="TLC checks LocateIsPosix, NeverFromCwdImplicitly and CacheNeverStale over all histories of the bounded model (three directories, symlinked/missing/empty $PATH entries, executable/non-executable/directory shadows); thousands of histories are replayed on real files and every lookup view (locate_executable, locate_binary, `in`, listing, the file actually spawned) must match the model, whose PosixWhich is itself bound to two external oracles at every lookup.",
+        design_ref="3/C08",
+        note="Trusts TLC, dash's `command -v`, shutil.which and explicit directory mtimes; one command name; READ_DIR_ONCE empty. Two cache-staleness defects are known findings.",
+    ),
 }
 
 ALL = [f"C{i:02d}" for i in range(1, 21)]
